@@ -8,22 +8,39 @@
      premature / finished, RulesRoot locking on the first branch
      (rules.append / rules.clear raise IllegalState when locked; appending the
      same rule class twice raises DuplicateKeyError).
+     Branches added by hand: the operation `HandBranch` is
+       b = tab.branch(); b.append(<one node carrying the conjunction a & b>)
+     (node properties as the logic needs: designated=True / world=0).  Tableau.branch() has no
+     guard at all (it works on a started and on a finished tableau); the first branch locks the
+     rule set (RulesRoot.lock on AFTER_BRANCH_ADD), so a tableau that gets a hand-made branch
+     before it has a logic can never be given one (the logic setter raises IllegalState from
+     rules.clear(); its branches are inert: no rule, next() is None).  With a logic each
+     hand-made branch supplies `c_h` rule applications (measured per logic on every run: 1 =
+     the conjunction rule, 2 with a reflexive access relation) and stays open for ever.  The
+     first rule application sets Flag.STARTED (the after_rule_apply listener), so a tableau can
+     be STARTED without TRUNK_BUILT; build_trunk after a hand-made branch is allowed until then.
    Abstracted:
-     the proof search is a supply of `c_n` rule applications available once the
-     trunk is built (`next()` returns an entry iff the trunk is built and fewer
-     than c_n entries are in the history), ending with no open branch iff
-     `c_closes`; the clock is one bit per consultation of the build timer
-     ("elapsed_ms() > build_timeout"), read from the real timer by the
-     correspondence: `b` for the check at the start of step(), `b2` for the
+     the proof search is a supply of rule applications: `c_n` for the trunk once it is built
+     plus `c_h` per hand-made branch of a tableau that has a logic (`next()` returns an entry
+     iff fewer than `supply` entries are in the history; the order in which the branches are
+     served is not modelled, only the count); no branch is open iff there is no hand-made
+     branch and the trunk (if built) is at its natural end and `c_closes`; the clock is one bit
+     per consultation of the build timer ("elapsed_ms() > build_timeout"), read from the real
+     timer by the correspondence: `b` for the check at the start of step(), `b2` for the
      checks inside model generation in finish().
-   Not modelled: branches added by hand with Tableau.branch(), malformed
+   Assumed by the abstraction and re-measured by the correspondence on every run: rule
+   applications on different branches do not influence each other's count (false for logic D,
+   whose Serial rule consults the tableau-wide history: two hand-made branches loop for ever;
+   the driver measures this per logic and uses HandBranch only where c_h is additive).
+   Not modelled: hand-made branches with other contents, Tableau.branch(parent), malformed
    arguments / unknown logic names, the tree / stats / models themselves. *)
 From Coq Require Import List Bool Arith ZArith Lia.
 Import ListNotations.
 
 Record cfg := mkCfg {
-  c_n : nat;                 (* natural length of the proof *)
+  c_n : nat;                 (* natural length of the proof from the trunk *)
   c_closes : bool;           (* no open branch at its natural end *)
+  c_h : nat;                 (* rule applications one hand-made branch supplies *)
   c_nrules : nat;            (* number of rules of the logic *)
   c_auto : bool;             (* opts['auto_build_trunk'] *)
   c_models : bool;           (* opts['is_build_models'] *)
@@ -44,7 +61,7 @@ Record st := mkSt {
   has_arg : bool;
   locked : bool;             (* tab.rules.locked *)
   added : bool;              (* the extra rule class is in tab.rules *)
-  open_zero : bool;          (* len(tab.open) == 0 *)
+  nhand : nat;               (* number of hand-made branches (all open) *)
   hist : nat;                (* len(tab.history) *)
   nrules : nat }.            (* len(tab.rules) *)
 
@@ -53,14 +70,22 @@ Definition has_step_limit (c : cfg) : bool := positive (c_max_steps c).
 Definition has_time_limit (c : cfg) : bool := positive (c_timeout c).
 
 (* the constructor called with options only: neither logic nor argument *)
-Definition init : st := mkSt true false false false false false false false false true 0 0.
+Definition init : st := mkSt true false false false false false false false false 0 0 0.
+
+(* the rule applications there are to make: the trunk's and those of the hand-made branches *)
+Definition supply (c : cfg) (s : st) : nat :=
+  (if trunk s then c_n c else 0) + (if has_logic s then c_h c * nhand s else 0).
+
+(* len(tab.open) == 0 *)
+Definition open_zero (c : cfg) (s : st) : bool :=
+  (nhand s =? 0) && (if trunk s then (hist s =? c_n c) && c_closes c else true).
 
 Definition completed (s : st) : bool := finished s && negb (premature s).
 Definition is_premature (s : st) : bool := finished s && premature s.
 Definition verdict_ok (c : cfg) (s : st) : bool :=
   completed s && has_arg s && (negb (c_trunk_verdict c) || trunk s).
-Definition valid (c : cfg) (s : st) : option bool := if verdict_ok c s then Some (open_zero s) else None.
-Definition invalid (c : cfg) (s : st) : option bool := if verdict_ok c s then Some (negb (open_zero s)) else None.
+Definition valid (c : cfg) (s : st) : option bool := if verdict_ok c s then Some (open_zero c s) else None.
+Definition invalid (c : cfg) (s : st) : option bool := if verdict_ok c s then Some (negb (open_zero c s)) else None.
 
 Inductive err := IllegalState | Timeout | DuplicateKey.
 Inductive res := ROk | REntry | RNone | RErr (e : err) | RFuel.
@@ -70,17 +95,17 @@ Definition exceeded (c : cfg) (s : st) : bool :=
   has_step_limit c && match c_max_steps c with Some z => (z <=? Z.of_nat (hist s))%Z | None => false end.
 
 (* next() returns an entry *)
-Definition available (c : cfg) (s : st) : bool := trunk s && (hist s <? c_n c).
+Definition available (c : cfg) (s : st) : bool := hist s <? supply c s.
 
 Definition set_finished (s : st) : st :=
   mkSt (premature s) true (timed_out s) (trunk s) (started s) (has_logic s) (has_arg s) (locked s) (added s)
-       (open_zero s) (hist s) (nrules s).
+       (nhand s) (hist s) (nrules s).
 Definition set_timed_out (s : st) : st :=
   mkSt (premature s) (finished s) true (trunk s) (started s) (has_logic s) (has_arg s) (locked s) (added s)
-       (open_zero s) (hist s) (nrules s).
+       (nhand s) (hist s) (nrules s).
 Definition clear_premature (s : st) : st :=
   mkSt false (finished s) (timed_out s) (trunk s) (started s) (has_logic s) (has_arg s) (locked s) (added s)
-       (open_zero s) (hist s) (nrules s).
+       (nhand s) (hist s) (nrules s).
 
 (* finish(): returns the state and whether ProofTimeoutError is re-raised *)
 Definition finish (c : cfg) (b2 : bool) (s : st) : st * bool :=
@@ -93,16 +118,16 @@ Definition finish (c : cfg) (b2 : bool) (s : st) : st * bool :=
   | _ => (s1, false)
   end.
 
-Definition apply_rule (c : cfg) (s : st) : st :=
+Definition apply_rule (s : st) : st :=
   mkSt (premature s) (finished s) (timed_out s) (trunk s) true (has_logic s) (has_arg s) (locked s) (added s)
-       (if S (hist s) =? c_n c then c_closes c else false) (S (hist s)) (nrules s).
+       (nhand s) (S (hist s)) (nrules s).
 
 (* step() *)
 Definition step (c : cfg) (b b2 : bool) (s : st) : st * res :=
   if finished s then (s, RNone) else
   if has_time_limit c && b then (fst (finish c b2 (set_timed_out s)), RErr Timeout) else
   if negb (exceeded c s) then
-    if available c s then (apply_rule c s, REntry)
+    if available c s then (apply_rule s, REntry)
     else let '(s2, t) := finish c b2 (clear_premature s) in (s2, if t then RErr Timeout else RNone)
   else let '(s2, t) := finish c b2 s in (s2, if t then RErr Timeout else RNone).
 
@@ -121,12 +146,12 @@ Fixpoint build_loop (c : cfg) (fuel i : nat) (k : option nat) (b2 : bool) (s : s
            end
   end.
 Definition build (c : cfg) (k : option nat) (b2 : bool) (s : st) : st * res :=
-  build_loop c (S (c_n c - hist s)) 0 k b2 s.
+  build_loop c (S (supply c s - hist s)) 0 k b2 s.
 
 (* build_trunk() *)
 Definition do_trunk (s : st) : st :=
   mkSt (premature s) (finished s) (timed_out s) true true (has_logic s) (has_arg s) true (added s)
-       false (hist s) (nrules s).
+       (nhand s) (hist s) (nrules s).
 Definition refuses (c : cfg) (s : st) : bool := started s || (c_fin_lock c && finished s).
 Definition build_trunk (c : cfg) (s : st) : st * res :=
   if trunk s then (s, RErr IllegalState) else
@@ -138,7 +163,7 @@ Definition build_trunk (c : cfg) (s : st) : st * res :=
 Definition set_argument (c : cfg) (s : st) : st * res :=
   if refuses c s then (s, RErr IllegalState) else
   let s1 := mkSt (premature s) (finished s) (timed_out s) (trunk s) (started s) (has_logic s) true (locked s) (added s)
-                 (open_zero s) (hist s) (nrules s) in
+                 (nhand s) (hist s) (nrules s) in
   if has_logic s1 && c_auto c then build_trunk c s1 else (s1, ROk).
 
 (* logic setter: rules.clear() then the logic's rules *)
@@ -146,7 +171,7 @@ Definition set_logic (c : cfg) (s : st) : st * res :=
   if refuses c s then (s, RErr IllegalState) else
   if locked s then (s, RErr IllegalState) else
   let s1 := mkSt (premature s) (finished s) (timed_out s) (trunk s) (started s) true (has_arg s) (locked s) false
-                 (open_zero s) (hist s) (c_nrules c) in
+                 (nhand s) (hist s) (c_nrules c) in
   if has_arg s1 && c_auto c then build_trunk c s1 else (s1, ROk).
 
 (* tab.rules.append(ExtraRule) *)
@@ -154,7 +179,12 @@ Definition add_rule (s : st) : st * res :=
   if locked s then (s, RErr IllegalState) else
   if added s then (s, RErr DuplicateKey) else
   (mkSt (premature s) (finished s) (timed_out s) (trunk s) (started s) (has_logic s) (has_arg s) (locked s) true
-        (open_zero s) (hist s) (S (nrules s)), ROk).
+        (nhand s) (hist s) (S (nrules s)), ROk).
+
+(* b = tab.branch(); b.append(node): no guard at all; the first branch locks the rule set *)
+Definition hand_branch (s : st) : st * res :=
+  (mkSt (premature s) (finished s) (timed_out s) (trunk s) (started s) (has_logic s) (has_arg s) true (added s)
+        (S (nhand s)) (hist s) (nrules s), ROk).
 
 Inductive op :=
 | Step (b b2 : bool)
@@ -163,7 +193,8 @@ Inductive op :=
 | SetArgument
 | SetLogic
 | BuildTrunk
-| AddRule.
+| AddRule
+| HandBranch.
 
 Definition exec (c : cfg) (s : st) (o : op) : st * res :=
   match o with
@@ -174,6 +205,7 @@ Definition exec (c : cfg) (s : st) (o : op) : st * res :=
   | SetLogic => set_logic c s
   | BuildTrunk => build_trunk c s
   | AddRule => add_rule s
+  | HandBranch => hand_branch s
   end.
 
 Fixpoint trace (c : cfg) (s : st) (ops : list op) : list (res * st) :=
@@ -185,7 +217,7 @@ Fixpoint trace (c : cfg) (s : st) (ops : list op) : list (res * st) :=
 Definition run (c : cfg) (ops : list op) : st := fold_left (fun s o => fst (exec c s o)) ops init.
 
 (* what the correspondence compares after every call *)
-Definition obs := (res * (bool * bool * bool * bool * bool) * (option bool * option bool) * (bool * nat * nat))%type.
+Definition obs := (res * (bool * bool * bool * bool * bool) * (option bool * option bool) * (bool * nat * nat) * bool)%type.
 Definition observe (c : cfg) (x : res) (s : st) : obs :=
-  (x, (premature s, finished s, timed_out s, trunk s, started s), (valid c s, invalid c s), (locked s, hist s, nrules s)).
+  (x, (premature s, finished s, timed_out s, trunk s, started s), (valid c s, invalid c s), (locked s, hist s, nrules s), open_zero c s).
 Definition otrace (c : cfg) (ops : list op) : list obs := map (fun p => observe c (fst p) (snd p)) (trace c init ops).
